@@ -84,6 +84,18 @@ Clauses(e) ==
                     <<"clients-complete", ~e.done.clients_exc>> >>
      IN IF AllFails(base) # "" \/ ~DecsComplete(e, Len(e.boards))
         THEN base \o << <<"complete-decisions", DecsComplete(e, Len(e.boards))>> >>
+             \* the session stopped: everything the decisions taken so far oblige
+             \* the server to send must have been sent (boards before the last
+             \* started one must be complete for this to be defined)
+             \o (IF e.done.verdict = "deadlock" /\ ~e.done.clients_exc
+                    /\ DecsComplete(e, T!LastStarted(e.decs) - 1)
+                 THEN [s \in 1..4 |->
+                         LET want == T!PartialServerStream(s - 1, e.boards, e.decs, e.teams)
+                             got == e.s2c[s]
+                             d == FirstDiff(SubSeq(got, 1, IF Len(got) < Len(want) THEN Len(got)
+                                                           ELSE Len(want)), want)
+                         IN <<"stream-partial-" \o SeatTag(s - 1) \o "@" \o ToString(d), d = 0>>]
+                 ELSE <<>>)
         ELSE base
      \o StreamClauses(e, "stream", e.s2c,
                       LAMBDA s : T!ServerStream(s, e.boards, e.decs, e.teams))
